@@ -209,6 +209,8 @@ def random_group(chk, exe, rng, nscen, steps, label):
             logs[k] = sess.log[mark:]
             events += sc.ev
             done += 1
+            if k == 1:
+                chk.sample(dict(kind="recorded scenario (first 50 events)", events=sc.ev[:50]), cap=2)
     finally:
         rc, err = sess.close()
         if rc != 0:
